@@ -121,7 +121,15 @@ pub fn check_stream(bytes: &[u8], kind: &str, exp: Option<&Expect>, obs: &mut Ob
                         for (t, cp) in &e.children {
                             match t {
                                 b"esds" => {
-                                    sd::esds(cp, &mut dev);
+                                    if let Some(es) = sd::esds(cp, &mut dev) {
+                                        // the record names its sampling rate by table index: for
+                                        // a standard rate that must be the rate of the entry
+                                        const RATES: [u32; 13] = [96000, 88200, 64000, 48000, 44100, 32000, 24000, 22050, 16000, 12000, 11025, 8000, 7350];
+                                        let entry_rate = e.rate_fixed >> 16;
+                                        if es.asc.len() >= 2 && e.rate_fixed & 0xffff == 0 && RATES.contains(&entry_rate) && (es.sfi as usize) < RATES.len() && RATES[es.sfi as usize] != entry_rate {
+                                            dev.push("esds: samplingFrequencyIndex names another rate than the mp4a sample entry".into());
+                                        }
+                                    }
                                 }
                                 b"dOps" => {
                                     if let Some(d) = sd::dops(cp, &mut dev) {
